@@ -2,7 +2,11 @@ import OH.Model.Py
 /-
 Specification vocabulary of property C12 (`OH.Props.C12`): the declarative description of "the
 equivalent context" and of "what the Rust core returns" that the theorems compare the binding model
-(`OH.Model.Py`) with.  Definitions only.  Core-only imports (the correspondence driver links it).
+(`OH.Model.Py`) with: `specHolidays` / `specLocale` / `table` (the constructor), `wall` (which
+wall-clock time is evaluated), `resultZone` / `attach` (a context WITHOUT a zone: the wall-clock
+result with the input's zone attached), `zoneRanges` / `zoneNextChange` (a context WITH a zone: the
+localized stream of /repo dfe1ade — skipped spans dropped, neighbours merged, bounds converted),
+`CoreTotal`.  Definitions only.  Core-only imports (the correspondence driver links it).
 -/
 namespace OH.Spec.Py
 open OH.Model OH.Model.Py
@@ -108,7 +112,9 @@ def outcomeOf (r : Except PyErr (PyCtx C)) : Outcome :=
 
 /-! ## what is evaluated, and what a result carries -/
 
-/-- the core context a Python locale is equivalent to, read on its wall clock -/
+/-- the core context a Python locale is equivalent to, read on its wall clock (this is what `state`
+is evaluated on; `next_change` / `intervals` of a context with a zone go through the localized stream,
+`zoneRanges` below) -/
 def coreWall (l : PyLocation C.Zone) : Localize C Int :=
   match l with
   | .naive => noLocation C
@@ -181,13 +187,74 @@ def coreRangesNaive (e : C.Expr) (h : C.Hol) (start : DateTimeMaybeAware C.Zone)
   | none => iterFrom C (noLocation C) e h (DateTimeMaybeAware.asNaiveLocal C start)
 
 
+/-! ## a context with a zone: the localized stream
+
+What `OpeningHours<TzLocation>::iter_range` makes of the wall-clock stream of the evaluator since
+/repo dfe1ade, written with the two zone conversions only (no `Localize` record): this is what a
+Python context with a zone returns for EVERY input, naive or aware, existing on the zone's clock or
+inside one of its gaps (`py_intervals_eq_core_zone_*`, `py_next_change_eq_core_zone`). -/
+
+/-- where the wall-clock reading `n` lands on the clock of `z`: `naive(datetime(n))` — `n` itself when
+that local time exists, the first valid local time after the gap when the clock skips it -/
+def landing (z : C.Zone) (n : Int) : M Int :=
+  match C.tzDatetime z n with
+  | .error p => .error p
+  | .ok u => .ok (C.tzNaive z u)
+
+/-- drop the local spans the clock of `z` skips entirely: `landing start ≥ end` (the span would be
+localized to an empty interval) -/
+def dropSkipped (z : C.Zone) : List Interval → M (List Interval)
+  | [] => .ok []
+  | iv :: rest =>
+    match landing C z iv.start with
+    | .error p => .error p
+    | .ok n =>
+      match dropSkipped z rest with
+      | .error p => .error p
+      | .ok xs => .ok (if n < iv.stop then iv :: xs else xs)
+
+/-- a wall-clock range as a range of instants of `z`: both bounds through `TzLocation::datetime` -/
+def awareRange (z : C.Zone) (iv : Interval) : M (Range (Aware C.Zone)) :=
+  match C.tzDatetime z iv.start with
+  | .error p => .error p
+  | .ok s =>
+    match C.tzDatetime z iv.stop with
+    | .error p => .error p
+    | .ok t => .ok ⟨⟨s, z⟩, ⟨t, z⟩, iv.kind, iv.comments⟩
+
+def awareRanges (z : C.Zone) : List Interval → M (List (Range (Aware C.Zone)))
+  | [] => .ok []
+  | iv :: rest =>
+    match awareRange C z iv with
+    | .error p => .error p
+    | .ok x =>
+      match awareRanges z rest with
+      | .error p => .error p
+      | .ok xs => .ok (x :: xs)
+
+/-- the core's ranges for a context in zone `z`, from the wall-clock stream `l` of the window: skipped
+spans dropped, the same-kind neighbours they separated merged (`OH.Model.Tz.mergeRanges`: kinds
+equal and `curr.end ≤ next.start`; comments of the first), bounds converted -/
+def zoneRanges (z : C.Zone) (l : List Interval) : M (List (Range (Aware C.Zone))) :=
+  match dropSkipped C z l with
+  | .error p => .error p
+  | .ok kept => awareRanges C z (Tz.mergeRanges kept)
+
+/-- `next_change` read off the first range: its end, `None` when that end reads `DATE_END` or later
+on the clock of `z` (or when there is no range) -/
+def zoneNextChange (z : C.Zone) (rs : List (Range (Aware C.Zone))) : Option (DateTimeMaybeAware C.Zone) :=
+  match rs with
+  | [] => none
+  | r :: _ => if C.tzNaive z r.stop.utc ≥ instEnd then none else some (.aware r.stop)
+
+
 /-! ## totality of the core -/
 
-/-- every core operation the binding reaches returns normally -/
+/-- every core operation the binding reaches returns normally (`streamNaive`: no `next()` of the
+naive iteration panics, however far it is pulled) -/
 structure CoreTotal : Prop where
   tzDatetime : ∀ z n, ∃ u, C.tzDatetime z n = .ok u
-  firstNaive : ∀ e h ev a b, ∃ r, C.firstNaive e h ev a b = .ok r
-  iterNaive : ∀ e h ev a b, ∃ r, C.iterNaive e h ev a b = .ok r
+  streamNaive : ∀ e h ev a b, ∃ l, (C.streamNaive e h ev a b).collect = .ok l
 
 
 end OH.Spec.Py
